@@ -8,6 +8,8 @@ from fickling.analysis import Severity
 class FicklingContextManager:
     def __init__(self, max_acceptable_severity=Severity.LIKELY_SAFE):
         self.original_pickle_load = pickle.load
+        # what was in force each time the block was entered (one entry per open `with`)
+        self._entered_with = []
         self.max_acceptable_severity = max_acceptable_severity
 
     def __enter__(self):
@@ -15,11 +17,14 @@ class FicklingContextManager:
         wrapped_load = lambda file, *args, **kwargs: loader.load(  # noqa
             file, max_acceptable_severity=self.max_acceptable_severity
         )
+        # Leaving must restore what was in force when *this* block was entered, which is not
+        # necessarily what was in force when the manager object was created
+        self._entered_with.append(pickle.load)
         hook.run_hook()
         return self
 
     def __exit__(self, exc_type, exc_val, exc_tb):
-        pickle.load = self.original_pickle_load
+        pickle.load = self._entered_with.pop() if self._entered_with else self.original_pickle_load
 
 
 def check_safety():
